@@ -8,7 +8,7 @@
 #include <stdint.h>
 
 static char *hx_line; static size_t hx_cap;
-static char *hx_tok[256]; static int hx_ntok;
+static char *hx_tok[8192]; static int hx_ntok;
 
 static int hx_read(void) {
     ssize_t n = getline(&hx_line, &hx_cap, stdin);
@@ -16,7 +16,7 @@ static int hx_read(void) {
     while (n > 0 && (hx_line[n-1] == '\n' || hx_line[n-1] == '\r')) hx_line[--n] = 0;
     hx_ntok = 0;
     char *p = hx_line;
-    while (*p && hx_ntok < 256) {
+    while (*p && hx_ntok < 8192) {
         while (*p == ' ') ++p;
         if (!*p) break;
         hx_tok[hx_ntok++] = p;
